@@ -38,6 +38,9 @@ claimed = {
  "C16": ("proof", "DESIGN.md 4 (C16)", "contract-based deductive verification: whole-view postconditions of both cleanup operations with deletion during map iteration (visited-set invariants)",
          "For every tracker state and cut-off: surviving sessions are exactly those correlated or not older than the cut-off, surviving parked logins exactly those not older; values, user fields, the other map and the output unchanged; invariant preserved.",
          "time.Time.Before as strict order; that Read applies a one-minute cut-off every minute is covered by the auditd contracts when built; real time is not decided."),
+ "C03": ("proof", "DESIGN.md 3.8, 4 (C03)", "contract-based deductive verification: lock-set / atomicity / guard / lock-order obligations from the symbolic execution, plus the sequential invariant proofs as lock invariant",
+         "Every path of the four public operations is checked to run inside exactly one critical section of the tracker mutex (no map lock acquired, no guarded map or user field touched outside it, mutex not re-acquired), every access to GenericSyncMap.m holds its mtx, no lock is acquired while held, nothing is held at return. With the sequential proofs (each operation proved from an arbitrary invariant-satisfying state = state havocked at acquisition) this gives, for all schedules and any number of goroutines, linearizability by mutual exclusion, absence of data races on tracker state and of self-deadlock. Found and fixed D1.",
+         "The step 'single critical section => serialisable' is a textbook meta-argument, not mechanised; sync.Mutex semantics and the Go memory model are assumed; races outside tracker state are not covered."),
 }
 na_reason = "not yet built in this revision of the machinery (see DESIGN.md section 7 for the construction order)"
 props = [json.loads(l) for l in open('/verif/properties.jsonl')]
